@@ -1027,6 +1027,14 @@ impl SQLExpression for sql_ast::Expr {
             // `x BETWEEN lo AND hi` is on the level of the equality operators
             sql_ast::Expr::Between { .. } => 5,
 
+            // a negative number is spelled with a leading minus sign: as an operand it has to be
+            // treated like a unary minus (`-` applied to `-5` must not become the comment `--5`)
+            sql_ast::Expr::Value(v)
+                if matches!(&v.value, Value::Number(n, _) if n.starts_with('-')) =>
+            {
+                UnaryOperator::Minus.binding_strength()
+            }
+
             // all other items types bind stronger (function calls, literals, ...)
             _ => 20,
         }
